@@ -63,6 +63,7 @@ type Verifier struct {
 	engineErrors []string
 	funcsDone    []string
 	typeTags     map[string]int64
+	srcLines     map[string][]string
 	ufs          map[string]*ufDef
 	taggedAxioms []Clause
 	taggedTerms  map[int]*Term
@@ -80,7 +81,7 @@ func NewVerifier() *Verifier {
 		worlds: map[string]*Sort{}, specConsts: map[string]*Sort{}, aliases: map[string]types.Type{}, pureAs: map[string]*pureFunc{},
 		pureByKey: map[string]*pureFunc{}, globalSorts: map[string]*Sort{"$alloc": SInt}, globalsSpec: map[string][]string{},
 		strLits: map[string]string{}, opaqueCalls: map[string]map[string]int{}, usedLibSpecs: map[string]bool{}, inlined: map[string]bool{},
-		notes: map[string]bool{}, typeTags: map[string]int64{}, funcCtxs: map[string]*FuncCtx{}, ufs: map[string]*ufDef{}, taggedTerms: map[int]*Term{}, sameAsUsed: map[string]string{}}
+		notes: map[string]bool{}, typeTags: map[string]int64{}, srcLines: map[string][]string{}, funcCtxs: map[string]*FuncCtx{}, ufs: map[string]*ufDef{}, taggedTerms: map[int]*Term{}, sameAsUsed: map[string]string{}}
 	v.installPrelude()
 	return v
 }
